@@ -18,7 +18,7 @@ SIGMA = list("ab^$.()[]|*+?{},12-\\x")
 LEAVES_BASIC = ["a", "b", ".", "[ab]", "[^a]", "[a-c]"]
 LEAVES_EXTRA = ["\\x61", "-", "\\.", "\\U0001f600", "\U0001F600", "[a\\-]", "[\\x61-c]"]
 QUANTIFIERS_BASIC = ["", "?", "*", "+", "{2}", "{1,2}"]
-QUANTIFIERS_EXTRA = ["{2,}", "{,2}", "{0,1}", "*?"]
+QUANTIFIERS_EXTRA = ["{2,}", "{,2}", "{0,1}", "*?", "{0}", "{0,0}", "{,0}", "{1,0}", "{2,1}", "{0,}"]
 
 
 class Grammar:
